@@ -53,7 +53,7 @@ def check(run):
                      "controller releases one thread per step); the schedule drives, the recorded trace decides; "
                      "leg T: %d free-running stress runs (2-%d threads, registrations and evaluations of fresh names and built-in overrides, fresh process each so that first-use races are real); "
                      "every recorded event list (one atomic sequence counter) is validated by TLC against the atomic engine: some placement of linearization points between call and return must "
-                     "explain every result, no registry access before the fourth built-in stage except by the initialiser, handler = resolved handler, no registry lock at handler entry; "
+                     "explain every result, no registry access before the fourth built-in stage except by the initialiser, handler = resolved handler; "
                      "non-trivial = run with >= 2 threads and a registration" % (8 if thorough else 6, 1500 if thorough else 150, 8 if thorough else 6))
     eng.model(run)
     apalache(run)
